@@ -211,7 +211,7 @@ func init() {
 			"UnconfirmedTxs": "mempool content is not committed", "NumUnconfirmedTxs": "mempool content is not committed", "CheckTx": "not committed", "NetInfo": "peer info", "DumpConsensusState": "local consensus state",
 			"ConsensusState": "local consensus state", "Health": "liveness", "Genesis": "documented: genesis is not verified", "GenesisChunked": "documented: genesis is not verified",
 			"BroadcastEvidence": "submission",
-			"Subscribe": "event stream", "Unsubscribe": "event stream", "UnsubscribeAll": "event stream", "ABCIQuery": "delegates to ABCIQueryWithOptions", "OnStart": "lifecycle", "OnStop": "lifecycle",
+			"Subscribe":         "event stream", "Unsubscribe": "event stream", "UnsubscribeAll": "event stream", "ABCIQuery": "delegates to ABCIQueryWithOptions", "OnStart": "lifecycle", "OnStop": "lifecycle",
 			"SubscribeWS": "event stream", "UnsubscribeWS": "event stream", "UnsubscribeAllWS": "event stream",
 		}
 		var names []string
@@ -736,7 +736,15 @@ func init() {
 			c.Fail(fk+" :: verification loop", w.ipos(in), "the items are not verified inside a loop over the answer's list")
 			return
 		}
-		trips, okT := unitLoopTripsX(w, in, func(b *ssa.BasicBlock) bool { return edgeOnlyFails(w, f, b) })
+		// counted on the first instruction of the loop's body (the verifying call itself may sit behind the
+		// success of an earlier step of the same iteration)
+		var first ssa.Instruction = in
+		for _, sc := range hdr.Succs {
+			if loopBlocks(hdr)[sc] && len(sc.Instrs) > 0 {
+				first = sc.Instrs[0]
+			}
+		}
+		trips, okT := unitLoopTripsX(w, first, func(b *ssa.BasicBlock) bool { return edgeOnlyFails(w, f, b) })
 		c.Check(okT && wantTrips.MatchString(trips), fk+" :: every item of the answer is visited", w.ipos(in), "one iteration per item, left early only by failing", "the loop runs "+trips+" times or can be left early with success")
 		for _, p := range hdr.Preds {
 			if !hdr.Dominates(p) {
@@ -870,42 +878,69 @@ func init() {
 			// the height handed to the node is non-nil on every way to the call: an address, or the caller's
 			// pointer where it was tested
 			var bad []string
-			var visit func(v ssa.Value, pred, blk *ssa.BasicBlock, d int)
-			visit = func(v ssa.Value, pred, blk *ssa.BasicBlock, d int) {
+			var resolved []ssa.Value // addresses a missing height was resolved to
+			var visit func(v ssa.Value, pred, blk *ssa.BasicBlock, at *ssa.BasicBlock, d int)
+			visit = func(v ssa.Value, pred, blk *ssa.BasicBlock, at *ssa.BasicBlock, d int) {
 				switch x := v.(type) {
 				case *ssa.Phi:
 					if d < 3 {
 						for i, e := range x.Edges {
-							visit(e, x.Block().Preds[i], x.Block(), d+1)
+							visit(e, x.Block().Preds[i], x.Block(), at, d+1)
 						}
 						return
 					}
-				case *ssa.FieldAddr, *ssa.Alloc, *ssa.IndexAddr:
+				case *ssa.FieldAddr:
+					resolved = append(resolved, x.X)
 					return
+				case *ssa.Alloc, *ssa.IndexAddr:
+					return
+				case *ssa.Extract:
+					// the height comes out of a helper of this package that answers (height, error): on its
+					// success returns the height is non-nil in the helper's own terms, and this function uses
+					// it only behind the helper's nil error
+					if hc, isCall := x.Tuple.(*ssa.Call); isCall && d < 3 {
+						if h := staticCallee(hc); h != nil && h.Blocks != nil && pkgPathOf(h) == pkgPathOf(f) && hasSuccessIndicator(h) {
+							okErr := false
+							for _, a := range dominatingAtoms(at) {
+								if a.Kind == "nil" && a.V != nil {
+									if ex2, isEx := a.V.(*ssa.Extract); isEx && ex2.Tuple == x.Tuple && ex2.Index == h.Signature.Results().Len()-1 {
+										okErr = true
+									}
+								}
+							}
+							if okErr {
+								for _, r := range returnsOf(h) {
+									ret := r.(*ssa.Return)
+									if len(ret.Results) <= x.Index || !isNilConst(ret.Results[len(ret.Results)-1]) {
+										continue
+									}
+									visit(ret.Results[x.Index], nil, nil, ret.Block(), d+1)
+								}
+								return
+							}
+						}
+					}
 				}
 				if pred != nil && edgeNilness(pred, blk, v) == 1 {
 					return
 				}
 				if pred == nil {
-					for _, at := range dominatingAtoms(call.Block()) {
-						if at.Kind == "nonnil" && at.V != nil && sameValue(at.V, v) {
+					for _, a := range dominatingAtoms(at) {
+						if a.Kind == "nonnil" && a.V != nil && sameValue(a.V, v) {
 							return
 						}
 					}
 				}
 				bad = append(bad, w.expr(v))
 			}
-			visit(a[1], nil, nil, 0)
+			visit(a[1], nil, nil, call.Block(), 0)
 			c.Check(len(bad) == 0, fk+" :: ask the node for the parameters of a definite height", w.ipos(call), "non-nil height", "the node is asked without a height (it answers for the height it is about to decide, for which no header can be verified): "+strings.Join(bad, ", "))
 			// and the height it is resolved to is one the light client verified
-			if phi, ok := a[1].(*ssa.Phi); ok {
-				for _, e := range phi.Edges {
-					if fa, isFa := e.(*ssa.FieldAddr); isFa {
-						s := w.expr(fa.X)
-						c.Check(regexp.MustCompile(`^c\.updateLightClientIfNeededTo\(ctx, nil\)#0(\.SignedHeader(\.Header)?)?$`).MatchString(s), fk+" :: a missing height is resolved to the latest verified one", w.ipos(call), "height of updateLightClientIfNeededTo(ctx, nil)", "resolved to "+s)
-					}
-				}
+			for _, base := range resolved {
+				s := w.expr(base)
+				c.Check(regexp.MustCompile(`^c\.updateLightClientIfNeededTo\(ctx, nil\)#0(\.SignedHeader(\.Header)?)?$`).MatchString(s), fk+" :: a missing height is resolved to the latest verified one", w.ipos(call), "height of updateLightClientIfNeededTo(ctx, nil)", "resolved to "+s)
 			}
+			c.Check(len(resolved) >= 1, fk+" :: a missing height is resolved", w.ipos(call), ">= 1 resolution", "no path resolves a missing height")
 		}
 		c.Check(n == 1, fk+" :: request to the node found", w.pos(f.Pos()), "1", fmt.Sprintf("%d", n))
 	})
